@@ -98,7 +98,8 @@ def apply_op(op, form, args, params):
             k = params[0]
             return sparse.elemwise(lambda a: a + k, *args)
     if form == "inplace":
-        a = args[0].copy()
+        import copy
+        a = copy.deepcopy(args[0])
         r = iop[op](a, *args[1:])
         return r
     if form == "out":
@@ -169,7 +170,11 @@ def impl_api(case):
             r = apply_op(case["op"], case["form"], args, case.get("params", []))
         except Exception as ex:  # noqa: BLE001
             r = ex
-    return {"out": vlib.plain(r)}
+    try:
+        return {"out": vlib.plain(r)}
+    except Exception as ex:  # noqa: BLE001  (the returned object is not a self-consistent array)
+        return {"out": {"k": "other", "cls": "corrupt-" + type(r).__name__,
+                        "repr": f"{type(ex).__name__}: {ex}"[:160]}}
 
 
 # ------------------------------------------------------------------ kernel-level workers
@@ -603,10 +608,10 @@ def gen_diff_cases(tier, rng):
                                          "fmax", "fmin", "copysign", "nextafter", "fmod", "floor_divide", "remainder",
                                          "logaddexp", "heaviside", "maximum", "minimum", "greater", "less_equal", "sign"):
             dt = "float64"
-        nd = rng.choice([0, 1, 2, 2, 3])
+        nd = rng.choice([1, 2, 2, 3])       # 0-d operands are the integer campaign's business
         full = [rng.choice((1, 2, 3)) for _ in range(nd)]
         k = 1 if un else 2
-        shapes = [[d if rng.random() < 0.7 else 1 for d in full][rng.choice([0, 0, rng.randint(0, nd)]):] for _ in range(k)]
+        shapes = [[d if rng.random() < 0.7 else 1 for d in full][rng.choice([0, 0, rng.randint(0, nd - 1)]):] for _ in range(k)]
         shapes[0] = full if rng.random() < 0.5 else shapes[0]
         out.append({"ufunc": uf, "dtype": dt, "shapes": shapes, "fills": [rng.choice([0, 0, 1, 2]) for _ in range(k)],
                     "formats": [rng.choice(["coo", "gcxs", "dok"]) for _ in range(k)], "seed": i})
@@ -641,7 +646,8 @@ def jarg_lit(a):
 
 def api_lit(case, res):
     fd = vpair(vZ(fid_of(case["op"])), vlist(case.get("params", []) if case["op"] in ("clip2", "clipmin", "clipmax", "addk") else []))
-    return vpair(fd, vlist(case["args"], jarg_lit), vlib.sarr_lit(res.get("out") if "out" in res else res))
+    via = not (case["form"] == "method" and case["op"] in ("isnan", "isinf"))
+    return vpair(fd, vbool(via), vlist(case["args"], jarg_lit), vlib.sarr_lit(res.get("out") if "out" in res else res))
 
 
 def py_arg(a):
@@ -699,8 +705,21 @@ def classify_api(case, res, code):
     kind, clause = API_CODES.get(code, ("value", f"code{code}"))
     out = res.get("out", res)
     if code in (2, 3, 5) and isinstance(out, dict):
-        clause = f"{clause}:got_{out.get('cls') or out.get('k') or ('hang' if out.get('hang') else 'exc')}"
-    return {"property": "C01", "op": f"{case['op']}/{case['form']}", "kind": kind, "clause": clause,
+        got = str(out.get("cls") or out.get("k") or ("hang" if out.get("hang") else "exc"))
+        msg = str(out.get("msg") or out.get("repr") or "")
+        zero_d_dok = any(a["kind"] == "sparse" and a["spec"]["format"] == "dok" and a["spec"]["shape"] == []
+                         and a["spec"]["data"] for a in case["args"])
+        if code == 3 and zero_d_dok and "Invalid iterable to convert to COO" in msg:
+            clause = "zero_d_dok_operand_with_stored_value"
+        elif code == 3 and got == "AttributeError" and "'int' object has no attribute 'dtype'" in msg:
+            clause = "python_scalar_with_empty_ndarray"
+        elif code == 3 and got.startswith("corrupt-") and case["form"] in ("inplace", "out"):
+            clause = "inplace_or_out_on_zero_extent_gcxs_dok"
+        elif code == 3 and case["op"] in ("isnan", "isinf") and case["form"] == "method" and msg == "None":
+            clause = "dok_isnan_isinf_returns_None"
+        else:
+            clause = f"{clause}:got_{got}"
+    return {"property": "C01", "op": "elemwise", "call": f"{case['op']}/{case['form']}", "kind": kind, "clause": clause,
             "code": code, "group": case["group"], "layout": layout_tag([arg_shape(a) for a in case["args"]]),
             "case": case, "impl": out, "replay_py": replay_line(case)}
 
